@@ -74,6 +74,22 @@ func (m *C17) OnBlock(e *Env, blk *world.BlockRecord) {
 			}
 		}
 	}
+	// "processed as active exactly when flagged active": every tunnel flagged active when the end blocker starts is looked at by
+	// it -- one whose fee payer cannot pay is deactivated, one that is due gets a packet or a reported failure. A flagged tunnel
+	// for which the end block shows nothing although one of the two applied was skipped.
+	for _, jp := range ts.JPackets {
+		if jp.Trigger {
+			continue
+		}
+		if !jp.FundsOK && jp.Outcome != "deactivated" {
+			e.Fail("C17", "flagged_active_but_not_processed", "unfunded", "tunnel %d is flagged active, its fee payer holds %s and a packet costs %s, yet the end block left it active (observed %q)", jp.T.ID, jp.PayerBal, jp.FeeNeeded, jp.Outcome)
+			return
+		}
+		if jp.FundsOK && jp.Due && jp.Outcome == "none" {
+			e.Fail("C17", "flagged_active_but_not_processed", "due", "tunnel %d is flagged active and due, yet the end block reported neither a packet nor a failure for it", jp.T.ID)
+			return
+		}
+	}
 	// records, totals, flags and balances equal the model: accepted operations moved exactly their amount, rejected ones nothing
 	sumTotals := sdk.NewCoins()
 	active := map[uint64]bool{}
